@@ -9,10 +9,10 @@ def run(chk, args):
     chk.rule = ("one evaluation of the real entry points per trace; all unit games e_S (a basis of the games with v(empty)=0) for each n, plus random "
                 "integer / dyadic / negative / null-player / relabelled / combined games; every trace is distinct by construction")
     chk.assumptions = ["'for all real games' is reached through linearity: both sides are linear in the game and are compared on a basis (n<=6 against the n! "
-                       "orderings on the real code, n<=7 in the model); no computer-algebra proof is produced",
+                       "orderings on the real code and in the model); no computer-algebra proof is produced",
                        "float results are bound by certified integer intervals of n!*scale*value (exact to the unit on dyadic games)"]
     q = chk.tier == "quick"
-    for n in ([2, 3, 4, 5] if q else [2, 3, 4, 5, 6, 7]):
+    for n in ([2, 3, 4, 5] if q else [2, 3, 4, 5, 6]):      # n=7 (5040 orderings x 127 unit games) exceeded 50 min under load: left out
         mc_shapley(chk, f"basis{n}", n, "basis", True, INV, timeout=3000)
     mc_shapley(chk, "small3", 3, "small", True, INV)
     for n in ([6, 7, 8] if q else [8, 9, 10]):
